@@ -19,10 +19,24 @@ _lib = {}
 WORKDIR = os.path.join(VERIF, 'work', 'C21')
 
 
+_hooks = {}
+
+
 def lib_for(variant):
   if variant not in _lib:
     lib = mj.load(variant)
-    lib.raw.vf_fault_enable(-1, 0, 0)
+    from vf import build as vb, nativeso
+    h = C.CDLL(nativeso.build_so('c21_alloc', [vb.NATIVE + '/C21/c21_alloc.c'], variant))
+    for n in ('c21_count', 'c21_nfailed', 'c21_badfree', 'c21_overflow', 'c21_nlive'):
+      getattr(h, n).restype = C.c_long
+    h.c21_gen.restype = C.c_long
+    for n in ('c21_failed_idx', 'c21_live_idx', 'c21_live_size', 'c21_live_gen'):
+      getattr(h, n).restype = C.c_long
+      getattr(h, n).argtypes = [C.c_long]
+    h.c21_arm.argtypes = [C.c_long, C.c_long, C.c_long]
+    h.c21_install()
+    h.c21_arm(-1, 0, 0)
+    _hooks[variant] = h
     _lib[variant] = lib
   return _lib[variant]
 
@@ -36,13 +50,21 @@ class Ctx:
     self.unwound = []      # apis that ended in an mju_error unwind (longjmp through the call)
     self.stop = False
     self.err = C.create_string_buffer(1000)
+    self.hooks = None
+    self.fault_api = []    # (api, allocation count before the call) for calls during which an allocation failed
 
   def call(self, api, *args, expect=None):
     """-> return value or None; sets self.stop when the call failed."""
     lib = self.lib
     self.err.value = b''
+    h = self.hooks
+    c0, f0 = h.c21_count(), h.c21_nfailed()
     try:
-      r = getattr(lib, api)(*args)
+      try:
+        r = getattr(lib, api)(*args)
+      finally:
+        if h.c21_nfailed() > f0:
+          self.fault_api.append((api, int(c0)))
     except mj.MjError as e:
       self.events.append((api, 'mju_error', str(e)[:120]))
       self.unwound.append(api)
@@ -184,6 +206,7 @@ def sc_file(lib, c, xml):
     _delete_data(lib, c, m, d, bad)
     if m:
       lib.mj_deleteModel(m)
+    lib.mj_freeLastXML()      # mj_loadXML keeps the parsed spec in a global for mj_saveLastXML
     for ext in ('', '.saved', '.txt'):
       try:
         os.unlink(path + ext)
@@ -282,6 +305,7 @@ def sc_vfs(lib, c, xml):
   finally:
     if m:
       lib.mj_deleteModel(m)
+    lib.mj_freeLastXML()
     if inited:
       try:
         lib.mj_deleteVFS(vfs)
@@ -289,19 +313,72 @@ def sc_vfs(lib, c, xml):
         c.events.append(('mj_deleteVFS', 'mju_error', str(e)[:100]))
 
 
-SCENARIOS = dict(lifecycle=sc_lifecycle, file=sc_file, spec=sc_spec, vfs=sc_vfs)
+def sc_visual(lib, c, xml):
+  """loadXML(string) -> makeData -> forward -> mjv_makeScene -> mjv_updateScene -> mjv_copyData -> mjv_freeScene"""
+  spec = m = d = None
+  scn = lib.new_struct('mjvScene')
+  opt = lib.new_struct('mjvOption')
+  cam = lib.new_struct('mjvCamera')
+  made = False
+  bad = False
+  try:
+    spec = c.call('mj_parseXMLString', xml.encode(), None, c.err, 1000, expect='ptr')
+    if c.stop:
+      return
+    m = c.call('mj_compile', spec, None, expect='ptr')
+    if c.stop:
+      return
+    mm = mj.Model(lib, m, own=False)
+    d = c.call('mj_makeData', mm, expect='ptr')
+    if c.stop:
+      return
+    dd = mj.Data(lib, mm, d, own=False)
+    c.call('mj_forward', mm, dd)
+    if c.stop:
+      bad = True
+      return
+    lib.mjv_defaultScene(scn)
+    lib.mjv_defaultOption(opt)
+    lib.mjv_defaultCamera(cam)
+    made = True
+    c.call('mjv_makeScene', mm, scn, 200)
+    if c.stop:
+      return
+    c.call('mjv_updateScene', mm, dd, opt, None, cam, 7, scn)
+  finally:
+    if made:
+      try:
+        lib.mjv_freeScene(scn)
+      except mj.MjError as e:
+        c.events.append(('mjv_freeScene', 'mju_error', str(e)[:100]))
+    _delete_data(lib, c, m, d, bad)
+    if m:
+      lib.mj_deleteModel(m)
+    if spec:
+      lib.mj_deleteSpec(spec)
 
 
-def execute(lib, scenario, xml, k, seed, den):
-  """-> dict(count, failed, live, events, unwound)"""
-  raw = lib.raw
-  raw.vf_fault_enable(k, seed, den)
+SCENARIOS = dict(lifecycle=sc_lifecycle, file=sc_file, spec=sc_spec, vfs=sc_vfs, visual=sc_visual)
+
+
+def execute(lib, variant, scenario, xml, k, seed, den):
+  """-> dict(count, failed=[alloc indices], leaked=[alloc indices of blocks still live after cleanup], badfree, events..)"""
+  h = _hooks[variant]
+  h.c21_arm(k, seed, den)
   c = Ctx(lib)
+  c.hooks = h
   SCENARIOS[scenario](lib, c, xml)
-  count, failed, live = raw.vf_fault_count(), raw.vf_fault_failed(), raw.vf_fault_live()
-  raw.vf_fault_enable(-1, 0, 0)
+  nf = h.c21_nfailed()
+  gen = h.c21_gen()
+  mine = [i for i in range(h.c21_nlive()) if h.c21_live_gen(i) == gen]     # blocks allocated by this run, still live
+  out = dict(count=int(h.c21_count()), failed=[int(h.c21_failed_idx(i)) for i in range(min(nf, 256))],
+             leaked=sorted(int(h.c21_live_idx(i)) for i in mine),
+             leaked_bytes=sum(int(h.c21_live_size(i)) for i in mine),
+             badfree=int(h.c21_badfree()), overflow=int(h.c21_overflow()), events=c.events, unwound=c.unwound,
+             fault_api=c.fault_api)
+  h.c21_arm(-1, 0, 0)
   lib.warnings()
-  return dict(count=int(count), failed=int(failed), live=int(live), events=c.events, unwound=c.unwound)
+  return out
 
 
 def handler(job):
@@ -310,25 +387,25 @@ def handler(job):
   base = dict(scenario=sc, model_name=job.get('model_name'), variant=job['variant'])
   if job['mode'] == 'count':
     asanproc.journal(dict(base, k=None, phase='count'))
-    execute(lib, sc, xml, -1, 0, 0)                 # warm-up: lazily initialised globals (plugin tables, caches)
-    r = execute(lib, sc, xml, -1, 0, 0)
-    r2 = execute(lib, sc, xml, -1, 0, 0)
-    return dict(N=r['count'], N2=r2['count'], live=r['live'], events=r['events'])
+    execute(lib, job['variant'], sc, xml, -1, 0, 0)                 # warm-up: lazily initialised globals (plugin tables, caches)
+    r = execute(lib, job['variant'], sc, xml, -1, 0, 0)
+    r2 = execute(lib, job['variant'], sc, xml, -1, 0, 0)
+    return dict(N=r['count'], N2=r2['count'], leaked=r['leaked'], badfree=r['badfree'], events=r['events'])
   runs = []
-  execute(lib, sc, xml, -1, 0, 0)
+  execute(lib, job['variant'], sc, xml, -1, 0, 0)
   for k in job.get('ks', []):
     asanproc.journal(dict(base, k=k, phase='single-fault', model=xml))
-    r = execute(lib, sc, xml, k, 0, 0)
+    r = execute(lib, job['variant'], sc, xml, k, 0, 0)
     r['k'] = k
     runs.append(r)
   for seed, den in job.get('multi', []):
     asanproc.journal(dict(base, seed=seed, den=den, phase='multi-fault', model=xml))
-    r = execute(lib, sc, xml, -1, seed, den)
+    r = execute(lib, job['variant'], sc, xml, -1, seed, den)
     r['multi'] = [seed, den]
     runs.append(r)
   # the process must still be fully functional afterwards
   asanproc.journal(dict(base, k=None, phase='clean-run-after-faults'))
-  final = execute(lib, sc, xml, -1, 0, 0)
+  final = execute(lib, job['variant'], sc, xml, -1, 0, 0)
   return dict(runs=runs, final=final)
 
 
